@@ -1474,6 +1474,11 @@ class ModelBuilder:
                     scenario_idx = self._get_scenario_index(obj.project, scenario_id)
                     if scenario_idx is not None and attr_data and isinstance(attr_data, tuple):
                         attr_key, attr_value = attr_data
+                        if attr_key in ("duration", "length"):
+                            # Elapsed-time tasks are not supported: like the plain forms, the
+                            # scenario-specific ones are read and not applied (the raw text
+                            # must not reach the scheduler, which counts slots)
+                            continue
                         explicit = obj.__dict__.setdefault("_explicit_scenario_attrs", set())
                         explicit.add((attr_key, scenario_idx))
                         obj[(attr_key, scenario_idx)] = attr_value
